@@ -1,4 +1,4 @@
-use crate::wal::config::{PREFIX_META_SIZE, checksum64, debug_print};
+use crate::wal::config::{MAX_ALLOC, PREFIX_META_SIZE, checksum64, debug_print};
 use crate::wal::storage::SharedMmap;
 use rkyv::Deserialize as _;
 use rkyv_derive::{Archive, Deserialize, Serialize};
@@ -16,6 +16,20 @@ pub(crate) struct Metadata {
     pub(crate) owned_by: String,
     pub(crate) next_block_start: u64,
     pub(crate) checksum: u64,
+}
+
+/// Decodes the metadata of an entry header. The bytes come from disk and may be damaged:
+/// the archive is validated before it is accessed, and a payload size no allocation could
+/// hold is rejected.
+pub(crate) fn decode_metadata(meta_bytes: &[u8]) -> Option<Metadata> {
+    let mut aligned = rkyv::AlignedVec::with_capacity(meta_bytes.len());
+    aligned.extend_from_slice(meta_bytes);
+    let archived = rkyv::check_archived_root::<Metadata>(&aligned[..]).ok()?;
+    let meta: Metadata = archived.deserialize(&mut rkyv::Infallible).ok()?;
+    if meta.read_size as u64 > MAX_ALLOC {
+        return None;
+    }
+    Some(meta)
 }
 
 #[derive(Clone, Debug)]
@@ -92,21 +106,26 @@ impl Block {
             ));
         }
 
-        // Deserialize only the actual metadata bytes (skip the 2-byte length prefix)
-        let mut aligned = rkyv::AlignedVec::with_capacity(meta_len);
-        aligned.extend_from_slice(&meta_buffer[2..2 + meta_len]);
-
-        // SAFETY: `aligned` contains bytes we just read from our own file format.
-        // We bounded `meta_len` to PREFIX_META_SIZE and copy into an `AlignedVec`,
-        // which satisfies alignment requirements of rkyv.
-        let archived = unsafe { rkyv::archived_root::<Metadata>(&aligned[..]) };
-        let meta: Metadata = archived.deserialize(&mut rkyv::Infallible).map_err(|_| {
+        // Decode only the actual metadata bytes (skip the 2-byte length prefix). The bytes
+        // come from disk and may be damaged, so the archive is validated first.
+        let meta: Metadata = decode_metadata(&meta_buffer[2..2 + meta_len]).ok_or_else(|| {
             std::io::Error::new(
                 std::io::ErrorKind::InvalidData,
                 "failed to deserialize metadata",
             )
         })?;
         let actual_entry_size = meta.read_size;
+        // an entry never extends past its block
+        if in_block_offset
+            .checked_add((PREFIX_META_SIZE + actual_entry_size) as u64)
+            .map(|end| end > self.limit)
+            .unwrap_or(true)
+        {
+            return Err(std::io::Error::new(
+                std::io::ErrorKind::InvalidData,
+                "entry size exceeds its block",
+            ));
+        }
 
         // Read the actual data
         let new_offset = file_offset + PREFIX_META_SIZE as u64;
